@@ -1,5 +1,6 @@
 import SlimModel.Bits
 import SlimModel.Query
+import SlimModel.ListFast
 /-
   SlimModel.Slim — L2: the `Slim` protobuf message at word level.
 
@@ -67,6 +68,33 @@ def newVLenArray (elts : List Bytes) : Option VLenArrayMsg :=
     some { base with fixedSize := nonEmptySizes.getLast?.getD 0 }
   else
     some { base with positionBM := some (newBM (stepToPos sizes) 0 "s32") }
+
+/-- compiled form of `newVLenArray` (`@[csimp]` below): `sizes.getD i` for every `i` walks the
+    list each time; an array copy is indexed instead -/
+def newVLenArrayFast (elts : List Bytes) : Option VLenArrayMsg :=
+  let sizes := elts.map List.length
+  let total := sizes.sum
+  if total = 0 then none else
+  let sizesA := sizes.toArray
+  let nonEmptyIdx := (List.range elts.length).filter (fun i => (sizesA.getD i 0) > 0)
+  let nonEmptySizes := sizes.filter (· > 0)
+  let allEqual := match nonEmptySizes with
+    | [] => true
+    | z :: zs => zs.all (· == z)
+  let base : VLenArrayMsg :=
+    { n := elts.length, eltCnt := nonEmptyIdx.length
+      bytes := elts.flatten
+      presenceBM := some (newBM nonEmptyIdx elts.length "r64") }
+  if allEqual then
+    -- prevSize is the size of the last non-empty element
+    some { base with fixedSize := nonEmptySizes.getLast?.getD 0 }
+  else
+    some { base with positionBM := some (newBM (stepToPos sizes) 0 "s32") }
+
+@[csimp] theorem newVLenArray_eq_fast : @newVLenArray = @newVLenArrayFast := by
+  funext elts
+  unfold newVLenArray newVLenArrayFast
+  simp only [List.toArray_getD_eq]
 
 /-! ### `sortedBMCounts`, `memIncrOfShortSize`, `findMinShortSize` -/
 
@@ -189,6 +217,79 @@ def encodeCreator (t : Trie1) : SlimMsg :=
       | some es => newVLenArray es
       | none => none }
 
+/-- compiled form of `encodeCreator` (`@[csimp]` below): the three index filters read
+    `l.getD i` for every `i` (quadratic in the number of nodes); array copies are indexed instead -/
+def encodeCreatorFast (t : Trie1) : SlimMsg :=
+  let inners := innerRecs t.nodes
+  let innerCnt := inners.length
+  -- statistics over non-big inner nodes with at most maxShortSize labels
+  let cnts : Array (List (Nat × Nat)) :=
+    inners.foldl (fun (a : Array (List (Nat × Nat))) r =>
+      if !r.big && r.labels.length < maxShortSize + 1
+      then a.modify r.labels.length (fun tbl => bumpCount tbl (bm17 r.labels)) else a)
+      (Array.replicate (maxShortSize + 1) [])
+  let sorted := cnts.map sortCounts
+  let shortSize := findMinShortSize sorted
+  let (tbl, mostUsed) := shortTable sorted shortSize
+  -- substitution
+  let sub : List (List Nat × Nat × Bool) := inners.map (fun r =>
+    if r.big then (r.labels, bigInnerSize, false) else
+    match mostUsed.find? (·.1 == bm17 r.labels) with
+    | some (_, short) => (toArray [short], shortSize, true)
+    | none => (r.labels, innerSize, false))
+  let subA := sub.toArray
+  let shortIndex := (List.range innerCnt).filter (fun i => (subA.getD i ([], 0, false)).2.2)
+  let innerIdx := (List.range t.nodes.size).filter (fun i =>
+    match t.nodes[i]? with | some (.inner _) => true | _ => false)
+  -- inner prefixes
+  let innersA := inners.toArray
+  let prefIdx := (List.range innerCnt).filter (fun i =>
+    match (innersA.getD i default).pref with | .none => false | _ => true)
+  let ips : VLenArrayMsg :=
+    if t.opt.inner then
+      let ps := inners.filterMap (fun r => match r.pref with
+        | .stored ns => some (bitstrOf ns) | _ => none)
+      { eltCnt := prefIdx.length
+        presenceBM := some (newBM prefIdx innerCnt "r128")
+        positionBM := some (newBM (stepToPos (ps.map List.length)) 0 "s32")
+        bytes := ps.flatten }
+    else
+      { eltCnt := prefIdx.length
+        presenceBM := some (newBM prefIdx innerCnt "r128")
+        fixedSize := 2
+        bytes := (inners.filterMap (fun r => match r.pref with
+          | .step n => some (encStep n) | _ => none)).flatten }
+  -- leaf prefixes
+  let leafLps : List (Option Bytes) :=
+    t.nodes.toList.filterMap (fun n => match n with | .leaf _ lp => some lp | .inner _ => none)
+  -- capacity of the presence bitmap: every leaf (`c.nodeCnt - innerCnt`)
+  let leafCnt := leafLps.length
+  let lps : Option VLenArrayMsg :=
+    if t.opt.leaf then
+      let leafLpsA := leafLps.toArray
+      let idx := (List.range leafLps.length).filter (fun i => (leafLpsA.getD i none).isSome)
+      let ps := leafLps.filterMap id
+      some { presenceBM := some (newBM idx leafCnt "r64")
+             positionBM := some (newBM (stepToPos (ps.map List.length)) 0 "s32")
+             bytes := ps.flatten }
+    else none
+  { bigInnerCnt := t.bigCnt
+    shortSize := shortSize
+    nodeTypeBM := if t.nodes.size = 0 then none else some (newBM innerIdx t.nodes.size "r64")
+    inners := some (mk (ofMany (sub.map (·.1)) (sub.map (·.2.1))) "r128")
+    shortBM := some (newBM shortIndex innerCnt "r64")
+    shortTable := tbl
+    innerPrefixes := some ips
+    leafPrefixes := lps
+    leaves := match t.elts with
+      | some es => newVLenArray es
+      | none => none }
+
+@[csimp] theorem encodeCreator_eq_fast : @encodeCreator = @encodeCreatorFast := by
+  funext t
+  unfold encodeCreator encodeCreatorFast
+  simp only [List.toArray_getD_eq]
+
 /-- `newSlim`'s result as a message: `&Slim{}` for the empty key list, else `creator.build` -/
 def encode (t : Trie1) : SlimMsg :=
   if t.nodes.size = 0 then {} else encodeCreator t
@@ -198,6 +299,35 @@ def encode (t : Trie1) : SlimMsg :=
 def sliceBytes (bs : Bytes) (a b : Nat) : Except Err Bytes :=
   if a ≤ b ∧ b ≤ bs.length then .ok ((bs.drop a).take (b - a))
   else .error (.panic "slice bounds out of range")
+
+/-- compiled form of `sliceBytes` (`@[csimp]` below): the bounds check measures the slice it has
+    cut, not the whole byte section (`bs.length` walks all of it on every read) -/
+def sliceBytesFast (bs : Bytes) (a b : Nat) : Except Err Bytes :=
+  if a ≤ b then
+    if a = b then
+      (if a ≤ bs.length then .ok [] else .error (.panic "slice bounds out of range"))
+    else
+      let r := (bs.drop a).take (b - a)
+      if r.length = b - a then .ok r else .error (.panic "slice bounds out of range")
+  else .error (.panic "slice bounds out of range")
+
+@[csimp] theorem sliceBytes_eq_fast : @sliceBytes = @sliceBytesFast := by
+  funext bs a b
+  unfold sliceBytes sliceBytesFast
+  by_cases hab : a ≤ b
+  · rw [if_pos hab]
+    by_cases he : a = b
+    · subst he
+      rw [if_pos rfl]
+      by_cases hl : a ≤ bs.length
+      · rw [if_pos hl, if_pos ⟨hab, hl⟩]; simp
+      · rw [if_neg hl, if_neg (fun h => hl h.2)]
+    · rw [if_neg he]
+      simp only [List.length_take, List.length_drop]
+      by_cases hl : b ≤ bs.length
+      · rw [if_pos ⟨hab, hl⟩, if_pos (by omega)]
+      · rw [if_neg (fun h => hl h.2), if_neg (by omega)]
+  · rw [if_neg hab, if_neg (fun h => hab h.1)]
 
 /-- `VLenArray.get` -/
 def vlenGet (va : VLenArrayMsg) (index : Nat) : Except Err Bytes := do
@@ -226,6 +356,23 @@ def extractShort (words : List Nat) (frm len : Nat) : Except Err Nat := do
 /-- label indexes set in bits [frm, frm+size) of `words` -/
 def labelsIn (words : List Nat) (frm size : Nat) : List Nat :=
   (List.range size).filter (fun k => (words.getD ((frm + k) / 64) 0).testBit ((frm + k) % 64))
+
+/-- compiled form of `labelsIn` (`@[csimp]` below): drop the `frm / 64` words before the node
+    once instead of walking to word `(frm + k) / 64` for each of the `size` bits -/
+def labelsInFast (words : List Nat) (frm size : Nat) : List Nat :=
+  let ws := words.drop (frm / 64)
+  (List.range size).filter (fun k => (ws.getD ((frm % 64 + k) / 64) 0).testBit ((frm % 64 + k) % 64))
+
+@[csimp] theorem labelsIn_eq_fast : @labelsIn = @labelsInFast := by
+  funext words frm size
+  unfold labelsIn labelsInFast
+  simp only
+  apply List.filter_congr
+  intro k _
+  rw [Bits.getD_drop_add]
+  have e1 : frm / 64 + (frm % 64 + k) / 64 = (frm + k) / 64 := by omega
+  have e2 : (frm % 64 + k) % 64 = (frm + k) % 64 := by omega
+  rw [e1, e2]
 
 /-- `getLeafPrefix` -/
 def getLeafPrefix (s : SlimMsg) (ithLeaf : Nat) : Except Err (Option Bytes) := do
